@@ -65,6 +65,15 @@ func (g *Gen) Add(c Case) { g.Cases = append(g.Cases, c) }
 
 func (g *Gen) Skip(why string) { g.Skips[why]++ }
 
+// Mark records the input that is about to be run: a fatal runtime error (stack overflow, out
+// of memory) cannot be recovered; the driver reports this file as the failing input when
+// the harness dies.
+func (g *Gen) Mark(desc interface{}) {
+	if b, err := json.Marshal(map[string]interface{}{"stream": g.Prop, "input": desc}); err == nil {
+		os.WriteFile(filepath.Join(g.Out, "last_input.json"), b, 0o644)
+	}
+}
+
 // CorpusFiles returns the committed corpus entries for this stream, sorted.
 func (g *Gen) CorpusFiles() []string {
 	if g.Corpus == "" {
